@@ -4,16 +4,19 @@ import recvlib, senderlib
 
 # property -> list of (session family, n sessions quick/thorough, channel family, maxn, n behaviours quick/thorough)
 PLANS = {
-    "C01": [("clean", 220, 2500, "clean", 99, None, None)],
+    "C01": [("clean", 220, 2500, "clean", 99, None, None), ("wide", 10, None, "clean", 99, 10, None)],
     "C02": [("small", 200, None, "subsets", 13, 5000, 60000), ("small", 120, 600, "dups", 8, 2500, 30000),
             ("car", 40, 200, "subsets", 16, 2500, 30000)],
     "C03": [("small", 200, None, "perms", 6, 4000, 60000), ("small", 200, None, "corrupt", 99, 3000, None),
             ("small", 100, 400, "dups", 8, 1500, 20000), ("car", 30, 120, "perms", 5, 1500, 20000)],
-    "C09": [("small", 200, None, "writer", 99, 5000, None), ("small", 150, 600, "subsets", 13, 2000, 30000),
+    "C09": [("small", 200, None, "writer", 99, 5000, None), ("small", 200, None, "perms", 6, 4000, 60000), ("small", 150, 600, "subsets", 13, 2000, 30000),
             ("small", 150, 600, "corrupt", 99, 1500, None), ("car", 60, 300, "join", 99, 800, None)],
     "C16": [("car", 160, None, "join", 99, None, None)],
     "C19": [("exp", None, None, "expiry", 99, None, None)],
 }
+
+# sender families judged by Mon_Sender for the sender-side conjuncts of a receiver-side property
+SENDER_SIDE = {"C01": [("S6", None, None), ("S8", None, None), ("S1", 400, 6000)]}
 
 TEXT = {
     "C01": "clean channel: byte-exact single delivery with metadata",
@@ -31,6 +34,9 @@ def main(ctx):
     if getattr(ctx, "replay", None):
         j = json.load(open(ctx.replay))
         v = j["violation"]
+        if v.get("behaviour") and not v.get("session") and "ops" in v["behaviour"]:
+            # a sender-side conjunct of this property (see SENDER_SIDE)
+            return senderlib.replay_one(ctx)
         if not v.get("behaviour") or not v.get("session"):
             print("replay file has no behaviour/session")
             return 2
@@ -67,10 +73,22 @@ def main(ctx):
         total = len(behs)
         behs = senderlib.sample(behs, nb, ctx.seed)
         label = "%s/%s" % (sfam, cfam)
-        recvlib.run_rx(ctx, specs, infos, behs, label.replace("/", "-"))
+        # sessions of thousands of packets: one behaviour per monitor run, so that they are judged in parallel
+        recvlib.run_rx(ctx, specs, infos, behs, label.replace("/", "-"), **({"chunk_size": 1} if sfam == "wide" else {}))
         fams[label] = {"session_shapes_enumerated": total_sessions, "sessions_recorded": len(specs),
                        "schedules_enumerated_by_tlc": total, "replayed": len(behs),
                        "exhaustive_over_recorded_sessions": len(behs) == total}
+    # sender-side conjuncts of the property (SenderProps.tla tags them with the property id): what add_object accepts
+    # must be transmittable (field widths of the wire format, limits of the FEC schemes) and every packet must carry
+    # the parameters of its object
+    for fam, nq, nt in SENDER_SIDE.get(ctx.prop, []):
+        behs = senderlib.gen(ctx, fam, 0)
+        total = len(behs)
+        behs = senderlib.sample(behs, nq if ctx.tier == "quick" else nt, ctx.seed)
+        senderlib.run_behaviours(ctx, behs, fam)
+        fams["sender/" + fam] = {"schedules_enumerated_by_tlc": total, "replayed": len(behs), "exhaustive_over_recorded_sessions": len(behs) == total}
+    if ctx.prop in SENDER_SIDE:
+        senderlib.own_and_panics(ctx, ctx.prop)
     # a panic / hang of the receiver counts against the property under check
     for v in ctx.violations:
         if v.get("what", "").startswith("receiver-call-did-not-return") or v.get("what") == "receiver-drop-panicked":
